@@ -761,6 +761,17 @@ pub fn fixed_histories() -> Vec<Vec<Ev>> {
             Ev::Restart,
             a(b"c2", Some(x), &[x, z]),
         ],
+        // observation O1 (design/C01.md): a renewal 1 s after the previous one shortens the
+        // record (450 s told at 150, 300 s at 151); 301 s later the address is free for c2
+        vec![
+            a(b"c1", None, &[x]),
+            Ev::Tick(150),
+            a(b"c1", None, &[x]),
+            Ev::Tick(1),
+            a(b"c1", None, &[x]),
+            Ev::Tick(301),
+            a(b"c2", None, &[x]),
+        ],
     ]
 }
 
